@@ -303,6 +303,25 @@ static JV handle_c20(uint64_t seed, const JV &opts) {
 			}
 		}
 	}
+	// every write of the run accepted only in part, again and again (two and more short writes within one update); the update must still succeed
+	if (!r0.getb("violated") && !r0.has("harness_error") && r0.get("extra") && r0.get("extra")->get("changes") && !r0.get("extra")->get("changes")->a.empty()) {
+		for (long cap : {7L, 100L, 700L}) {
+			Plan p = base;
+			p.hdr.put("fs_fault_at", JV::num(0)); p.hdr.put("fs_fault_kind", JV::str("cap")); p.hdr.put("fs_fault_arg", JV::num((double)cap));
+			JV r = run_once(p); acc.fault_runs++; acc.traces.insert(r.gets("trace"));
+			if (r.get("extra") && r.get("extra")->getb("fs_fault_fired")) acc.faults_fired++;
+			std::string ctx = "scenario " + std::to_string(seed) + ", every write accepted up to " + std::to_string(cap) + " bytes only";
+			if (r.getb("violated")) {
+				JV v = JV::obj(); v.set("prop", JV::str(r.gets("prop"))); v.set("rule", JV::str(r.gets("rule"))); v.set("detail", JV::str(ctx + ": " + r.gets("detail").substr(0, 1200)));
+				JV r2 = run_once(p);
+				if (sig_of(r2) != sig_of(r) || r2.gets("trace") != r.gets("trace")) v.set("gate", JV::str("FAILED"));
+				else { p.profile = "c20:cap" + std::to_string(cap); v.set("replay", JV::str(write_replay(p, r, sig_of(r)))); v.set("gate", JV::str("ok")); }
+				acc.viol.push(v);
+				continue;
+			}
+			c20_check_images(base, r, ctx, acc, cache);
+		}
+	}
 	out.set("violations", acc.viol);
 	JV s2 = JV::obj(); s2.set("images", JV::num((double)acc.images)); s2.set("reloads", JV::num((double)acc.reloads)); s2.set("fault_runs", JV::num((double)acc.fault_runs)); s2.set("crash_points", JV::num((double)acc.crash_points));
 	s2.set("torn_images", JV::num((double)acc.torn)); s2.set("powerloss_images", JV::num((double)acc.powerloss)); s2.set("faults_fired", JV::num((double)acc.faults_fired)); s2.set("distinct_traces", JV::num((double)acc.traces.size()));
